@@ -225,6 +225,12 @@ def gen_cases(tier, seed):
             pre += [{"p": "dst", "k": "d"}, {"p": "dst/inside", "k": "f", "size": 3, "seed": 9, "segs": None}]
         if cls in ("no-source",) and dstate == "absent":
             pass
+        if cls in ("dir-onto-file-mapped", "dir-without-r", "nondir-onto-dir-mapped") and r.random() < 0.4:
+            # the offending source has a name that ends in a dot (`adir.` is a name like any other, `adir/.` is not)
+            ren = lambda t: t.replace("adir", "adir.").replace("athing", "athing.")
+            spec = [dict(e, p=ren(e["p"])) for e in spec]
+            pre = [dict(e, p=ren(e["p"])) for e in pre]
+            srcs = [ren(x) for x in srcs]
         drv = [] if cls == "bad-driver" else ["--driver", driver]
         noise = r.choice([[], [], [], ["--fsync"], ["--backup", "numbered"], ["--no-perms"], ["-L"], ["--gitignore"], ["--no-progress"], ["--reflink", "never"]])
         if cls in ("noclobber-force", "T-with-target-directory", "bad-driver", "bad-backup", "bad-blocksize", "bad-workers") and r.random() < 0.4:
